@@ -92,7 +92,9 @@ def run_tlc(scr, specdir, module, cfg_text, name, workers=8, timeout=900, heap="
         shutil.copytree(os.path.join(VERIF, "spec", specdir), wd)
     cfg = os.path.join(wd, name + ".cfg")
     open(cfg, "w").write(cfg_text)
-    cmd = ["java", "-Xmx" + heap, "-Xss64m", "-XX:+UseParallelGC", "-XX:ParallelGCThreads=%d" % gcthreads]
+    tmpd = os.path.join(wd, "jtmp-" + name)
+    os.makedirs(tmpd, exist_ok=True)
+    cmd = ["java", "-Djava.io.tmpdir=" + tmpd, "-Xmx" + heap, "-Xss64m", "-XX:+UseParallelGC", "-XX:ParallelGCThreads=%d" % gcthreads]
     if queue_dfs:
         cmd.append("-Dtlc2.tool.queue.IStateQueue=StateDeque")
     cmd += ["-cp", TLA_CP, "tlc2.TLC", "-workers", str(workers), "-metadir", os.path.join(wd, "md-" + name), "-config", cfg]
